@@ -109,6 +109,9 @@ type cliRun struct {
 	hencBuf  bytes.Buffer
 	hdec     *hpack.Decoder
 	hdecMu   sync.Mutex
+	// SETTINGS_HEADER_TABLE_SIZE values this peer has sent: the acknowledged one and those still in flight
+	htsAcked   uint32
+	htsPending []uint32
 	rdDone   chan struct{}
 	reqs     map[int]*cReq
 	reqMu    sync.Mutex
@@ -142,6 +145,19 @@ type cliRun struct {
 	gated       atomic.Bool
 	cutMode     bool
 	cutEvs      []cutEvC
+}
+
+const htsNone = ^uint32(0)
+
+// htsAllowed is the largest dynamic table size a conforming client may announce right now (hdecMu held).
+func (r *cliRun) htsAllowed() uint32 {
+	m := r.htsAcked
+	for _, v := range r.htsPending {
+		if v != htsNone && v > m {
+			m = v
+		}
+	}
+	return m
 }
 
 func (r *cliRun) emit(e sEvent) {
@@ -189,6 +205,7 @@ func runCliScenario(sc cScenario) (evs []sEvent) {
 	r.fr.SetMaxReadFrameSize(1<<24 - 1)
 	r.henc = hpack.NewEncoder(&r.hencBuf)
 	r.hdec = hpack.NewDecoder(4096, nil)
+	r.htsAcked = 4096
 	r.rdDone = make(chan struct{})
 
 	cliHookMu.Lock()
@@ -238,6 +255,9 @@ func runCliScenario(sc cScenario) (evs []sEvent) {
 				r.rlExit.Store(true)
 			case "close":
 				r.emit(sEvent{"k": "connclosed"})
+			case "ga.flag", "ga.swept":
+				// the two steps of the read loop's GOAWAY handling, in the order the code takes them
+				r.emit(sEvent{"k": "hs", "ev": ev})
 			}
 		}
 	}
@@ -266,6 +286,7 @@ func runCliScenario(sc cScenario) (evs []sEvent) {
 		ss = append(ss, xh2.Setting{ID: xh2.SettingHeaderTableSize, Val: uint32(sc.Cfg.SrvHTS)})
 		d.HTS = sc.Cfg.SrvHTS
 		r.hdec.SetAllowedMaxDynamicTableSize(uint32(sc.Cfg.SrvHTS))
+		r.htsAcked = uint32(sc.Cfg.SrvHTS) // part of the handshake: in force before the first request
 	}
 	r.fr.WriteSettings(ss...)
 	d.Len, d.NSet = 6*len(ss), len(ss)
@@ -360,7 +381,7 @@ func (q cqsnap) quiet(readerGone bool) bool {
 	// producers count before the hand-off, the write loop after taking: equality = nothing in between
 	wlOK := q.wlX || q.gated || (q.wlIdleAt == q.wlTaken && q.inQ == q.wlReq+q.inDrop && q.outQ == q.wlOut+q.outDrop && q.winQ == q.wlWin &&
 		q.inLen == 0 && q.outLen == 0 && q.winLen == 0)
-	rlOK := q.rlX || (q.inIdle && q.rlFrames == q.rlDone)
+	rlOK := q.rlX || q.gated || (q.inIdle && q.rlFrames == q.rlDone)
 	peerOK := q.outIdle || readerGone
 	callersOK := q.delivered == q.resolved
 	return wlOK && rlOK && peerOK && callersOK
@@ -387,7 +408,9 @@ func (r *cliRun) quiesce() bool {
 	for {
 		q := r.snap()
 		ok := q.quiet(r.readerGone()) && q == last
-		if r.toB.hold {
+		if r.toB.hold || q.gated {
+			// (a write loop parked in a scheduler gate may hold a lock the read loop is waiting for: only
+			// "nothing moves" can be established until the gate is opened)
 			ok = q == last
 			if ok {
 				time.Sleep(2 * time.Millisecond)
@@ -407,7 +430,7 @@ func (r *cliRun) quiesce() bool {
 		if ok {
 			stable++
 			need := 2
-			if r.toB.hold {
+			if r.toB.hold || q.gated {
 				need = 10
 			}
 			if stable >= need {
@@ -495,6 +518,17 @@ func (r *cliRun) readLoop() {
 			d.Inc = int(ff.Increment)
 		case *xh2.SettingsFrame:
 			d.Ack = ff.IsAck()
+			if ff.IsAck() {
+				r.hdecMu.Lock()
+				if len(r.htsPending) > 0 {
+					if v := r.htsPending[0]; v != htsNone {
+						r.htsAcked = v
+					}
+					r.htsPending = r.htsPending[1:]
+					r.hdec.SetAllowedMaxDynamicTableSize(r.htsAllowed())
+				}
+				r.hdecMu.Unlock()
+			}
 			d.NSet = ff.NumSettings()
 			d.Code = -1 // enable_push as advertised (-1: absent)
 			ff.ForeachSetting(func(s xh2.Setting) error {
@@ -671,6 +705,13 @@ func (r *cliRun) stepCall(st *cStep) {
 		"fields": fields, "bodykind": kind, "n": n})
 	if st.Gate != "" {
 		r.gatePoint.Store(st.Gate)
+	}
+	if r.noDeliver && !r.cutMode && r.wbuf.Len() > 0 {
+		// inside a burst: what the server has "sent" so far reaches the client NOW, so that the read loop is busy
+		// with it while the write loop takes this request - caller actions and server frames of one burst overlap
+		b := append([]byte(nil), r.wbuf.Bytes()...)
+		r.wbuf.Reset()
+		r.b.Write(b)
 	}
 	r.waiters.Add(1)
 	// Write only queues the request (or resolves it when the connection is done); calling it here, not
@@ -864,10 +905,22 @@ func (r *cliRun) step(st *cStep) {
 		if st.LastReq != 0 {
 			last = r.sidOf(&cStep{Req: st.LastReq})
 		}
+		if st.Gate != "" {
+			r.gatePoint.Store(st.Gate) // parks the read loop in the middle of its GOAWAY handling until "ungate"
+		}
 		r.fr.WriteGoAway(last, xh2.ErrCode(st.Code), nil)
 		d := newFdesc()
 		d.Ty, d.Len, d.Last, d.Code = 7, 8, int(last), int(st.Code)
 		r.flush(&d)
+		if st.Gate != "" {
+			select {
+			case <-r.gateHit:
+				r.emit(sEvent{"k": "note", "what": "gated at " + st.Gate})
+			case <-time.After(2 * time.Second):
+				r.emit(sEvent{"k": "note", "what": "gate not reached"})
+				r.gatePoint.Store("")
+			}
+		}
 		r.quiesce()
 	case "wu":
 		sid := uint32(0)
@@ -891,14 +944,26 @@ func (r *cliRun) step(st *cStep) {
 			d.Ack, d.Fl = true, 1
 		} else {
 			var ss []xh2.Setting
+			carriedHTS := false
+			defer func() {
+				if !carriedHTS {
+					r.hdecMu.Lock()
+					r.htsPending = append(r.htsPending, htsNone) // one entry per SETTINGS frame, so that ACKs line up
+					r.hdecMu.Unlock()
+				}
+			}()
 			for _, p := range st.Pairs {
 				ss = append(ss, xh2.Setting{ID: xh2.SettingID(p[0]), Val: p[1]})
 				switch p[0] {
 				case 1:
 					d.HTS = clampInt(p[1])
+					// the limit binds the client's encoder from its ACK on; until then blocks encoded under any of the
+					// values still in flight are legitimate, so the decoder admits the largest of them
 					r.hdecMu.Lock()
-					r.hdec.SetAllowedMaxDynamicTableSize(p[1])
+					r.htsPending = append(r.htsPending, p[1])
+					r.hdec.SetAllowedMaxDynamicTableSize(r.htsAllowed())
 					r.hdecMu.Unlock()
+					carriedHTS = true
 				case 2:
 					if p[1] > 1 {
 						d.SBad = 1
